@@ -385,7 +385,7 @@ class C02(Check):
 
         def fake_x(a, u, z, cov):
             v = stubs.sym_array(c, 'xs%d' % len(xs), (L,), owner='lib')
-            xs.append(((a.rho, u, z, cov), v))
+            xs.append(((getattr(a, 'rho', a), u, z, cov), v))     # the argument bundle, or rho itself
             return v
         convs = []
         real_cc = sol.check_convergence
